@@ -510,7 +510,7 @@ def main(argv):
             ctx.violations.append(dict(what="unlisted-known-signature", detail="binder attributed mismatches to %s which known_findings.txt does not list" % sig,
                                        replay=dict(kind="none")))
         nviol = len(ctx.violations)
-        if not a.replay and not a.stage:
+        if not a.replay and not a.stage and os.path.realpath(REPO) == "/repo":      # evidence only for /repo itself
             write_evidence(pid, prop, ctx, time.time() - t0, nviol, prop.get("level", "model_checking"))
         if nviol:
             seen = set()
